@@ -113,6 +113,17 @@ theorem firstLig_noErr (kp : Nat → Bool) (rest : List Glyph) (a : Nat) (b : In
 theorem applyValue_noErr (v : Option ValueRec) (g : Glyph) : NoErr (applyValue v g) := by
   unfold applyValue; noerr
 
+theorem applyPair_noErr (st : St) (a p : Nat) (g1 g2 : Glyph) (adj : PairAdj) : NoErr (applyPair st a p g1 g2 adj) := by
+  unfold applyPair
+  refine NoErr.bind (applyValue_noErr _ _) (fun _ _ => ?_)
+  split
+  · exact NoErr.ok
+  · exact NoErr.bind (applyValue_noErr _ _) (fun _ _ => NoErr.ok)
+
+theorem applyMark_noErr (add : Bool) (st : St) (a : Nat) (markCov baseCov : Cov) (marks : List MarkRec)
+    (bases : List (List Anchor)) : NoErr (applyMark add st a markCov baseCov marks bases) := by
+  unfold applyMark; noerr
+
 theorem applySub_noErr (kp : Nat → Bool) (st : St) (a : Nat) (b : Int) (s : Subtable) : NoErr (applySub kp st a b s) := by
   have hf := firstRule_noErr kp st a b
   have hmf := matchFwd_noErr kp st.seq
@@ -129,6 +140,8 @@ theorem applySub_noErr (kp : Nat → Bool) (st : St) (a : Nat) (b : Int) (s : Su
       | exact hc3 _ _ _
       | exact hfl _
       | exact skipFwd_noErr _ _ _ _ _
+      | exact applyPair_noErr _ _ _ _ _ _
+      | exact applyMark_noErr _ _ _ _ _ _ _
       | exact applyValue_noErr _ _)
 
 theorem applyAt_noErr (kp : Nat → Bool) (st : St) (a : Nat) (b : Int) : ∀ ss, NoErr (applyAt kp st a b ss) := by
